@@ -191,15 +191,26 @@ def run(ctx):
     # (3) equality and hash
     from .c07 import random_seeds
     from gffutils.feature import feature_from_line
-    seeds = random_seeds(ctx.rng, 60)
+    base = [sd for sd in random_seeds(ctx.rng, 80) if len(sd["a"]) >= 2][:30]
+    seeds = []
+    for sd in base:
+        seeds.append(sd)
+        rev = dict(sd, a=list(reversed(sd["a"])), d=dict(sd["d"], order=[k for k, _ in reversed(sd["a"])]))
+        seeds.append(rev)                    # same content, attributes in the opposite order
+        alt = dict(sd, d=dict(sd["d"], trail=not sd["d"]["trail"]))
+        seeds.append(alt)                    # same content, another dialect (trailing semicolon)
     sp = ctx.path("eqseeds.json")
     with open(sp, "w") as f:
         json.dump({"wordna": A.word_na([k for s in seeds for k, _ in s["a"]]), "seeds": seeds}, f)
     gen = ctx.tlc("Gen_Attr", "CONSTANT WordNA <- WordNAFromFile\nINIT Init\nNEXT Next\nCHECK_DEADLOCK FALSE\n", env={"SEED_FILE": sp, "MODE": "rt"}, label="lines for equality pairs")
-    good = [c for c in gen.json if c["in"]][:20]
+    good = [c for c in sorted(gen.json, key=lambda c: c["k"]) if c["in"]][:45]
     lines = [dec(c["line"]) for c in good]
     lines = lines + lines[:10] + [l.replace("\t100\t", "\t101\t") for l in lines[:10]]
-    feats = [feature_from_line(l, keep_order=True) for l in lines]
+    # keep_order is off: a Feature prints its attributes in its own order, so reordered content prints differently
+    feats = [feature_from_line(l) for l in lines]
+    for i, f in enumerate(feats):
+        if str(f) != lines[i]:
+            ctx.violation({"line": lines[i]}, "harness:line_not_reproduced", {"printed": str(f)})
     for i, f in enumerate(feats):
         for j, g in enumerate(feats):
             same = lines[i] == lines[j]
@@ -214,6 +225,11 @@ def run(ctx):
 
 def replay(ctx, rec):
     c = rec["case"]
+    if "line1" in c:
+        from gffutils.feature import feature_from_line
+        f, g = feature_from_line(c["line1"]), feature_from_line(c["line2"])
+        same = c["line1"] == c["line2"]
+        return (f == g) != same or (f != g) == same or (same and hash(f) != hash(g))
     if "raw" in c and isinstance(c["raw"], list):
         return bool(run_ops((c["raw"], c.get("feature", "parsed"))))
     if "raw" in c and "a1" in c["raw"]:
